@@ -768,6 +768,29 @@ theorem load_settles (V : Variant) (h9 : V.f9 = true) (h14 : V.f14 = true) (sv :
   obtain ⟨m, e', hw, _, _⟩ := confRead_ok_inv V sv st st' body o scratch hp h
   exact (load_settles_aux V h9 h14 sv _).2.2.1 _ _ _ _ _ _ _ _ hw
 
+/-- a settled list spells every entry of the file as the file does (names only *compare* ignoring
+    case): each file entry has a live node with its exact name and kind -/
+theorem Settled.spelling {sv : Bool} : ∀ {ps : List PNode} {ts : List Node}, Settled sv ps ts →
+    ∀ p ∈ ps, ∃ t ∈ ts, t.name = p.name ∧ t.kind = p.kind
+  | _, _, .nil, p, hp => by cases hp
+  | _, _, .both hn hk _ hrest, p, hp => by
+    rcases List.mem_cons.mp hp with rfl | hp'
+    · exact ⟨_, List.mem_cons_self .., hn, hk⟩
+    · obtain ⟨t, ht, h⟩ := hrest.spelling p hp'
+      exact ⟨t, List.mem_cons_of_mem _ ht, h⟩
+  | _, _, .absent _ _ hrest, p, hp => by
+    obtain ⟨t, ht, h⟩ := hrest.spelling p hp
+    exact ⟨t, List.mem_cons_of_mem _ ht, h⟩
+
+/-- C15 / C17: after a successful load every top-level entry of the file is in the live tree under
+    the file's own spelling of its name (on the pinned tree an entry that an earlier file had spelled
+    differently kept the old spelling: finding F33) -/
+theorem load_spelling (V : Variant) (h9 : V.f9 = true) (h14 : V.f14 = true) (sv : Bool) (st st' : State)
+    (body : Bytes) (o : ReadOut) (scratch : List PNode)
+    (hp : parseFile V body = .ok scratch) (h : confRead V sv st body = .ok (st', o)) :
+    ∀ p ∈ scratch, ∃ t ∈ st'.kids, t.name = p.name ∧ t.kind = p.kind :=
+  (load_settles V h9 h14 sv st st' body o scratch hp h).spelling
+
 /-- C15, second sentence: loading the same content twice changes nothing (up to the
     identity of freshly allocated strings) and notifies nobody. -/
 theorem load_idempotent (V : Variant) (h9 : V.f9 = true) (h14 : V.f14 = true) (sv : Bool) (st st1 st2 : State)
